@@ -143,6 +143,7 @@ Step ==
        [] o.op = "RL" -> DoRA(s, hist, "RA")
        [] o.op = "SRD" -> s' = s /\ hist' = hist
        [] o.op = "WCL" -> s' = WCLNext(s) /\ hist' = hist
+       [] o.op = "WCP" -> s' = s /\ hist' = hist
        [] o.op = "JA" ->
             LET j == JALoop(s, << >>, << >>, << >>, 0, o.k) IN
             /\ s' = JANext(j, CanonErr(j.w))
@@ -241,8 +242,8 @@ InvOverLimit ==
 
 (* C03: a program of ReadMessage calls on a fault-free conformant stream   *)
 (* yields exactly the messages of the stream.                              *)
-AllRM == \A i \in 1..Len(prog) : prog[i].op \in {"RM", "JA", "RJ", "WCL"}
-NReads == Cardinality({i \in 1..Len(prog) : prog[i].op # "WCL"})
+AllRM == \A i \in 1..Len(prog) : prog[i].op \in {"RM", "JA", "RJ", "WCL", "WCP"}
+NReads == Cardinality({i \in 1..Len(prog) : prog[i].op \notin {"WCL", "WCP"}})
 Conformant == Bad = 0 /\ cut.frame = 0 /\ \A i \in 1..Len(fr) : fr[i].lk = "n" /\ fr[i].arr = "full"
 InvDecode ==
   (pc > Len(prog) /\ AllRM /\ Conformant /\ (Lim = 0 \/ AllWithin) /\ cfg.hmode # "err") =>
